@@ -44,7 +44,9 @@ func (m msgServer) CreateHTLC(
 		return nil, err
 	}
 
-	if m.k.blockedAddrs[msg.To] {
+	// look the recipient up by its canonical spelling: the blocked list is keyed
+	// by lower-case bech32, an all-upper-case address names the same account
+	if m.k.blockedAddrs[to.String()] {
 		return nil, errorsmod.Wrapf(sdkerrors.ErrUnauthorized, "%s is a module account", msg.To)
 	}
 
